@@ -40,13 +40,14 @@ type s5Edge struct {
 }
 
 type s5ctx struct {
-	p      *core.Program
-	a      *spec.Anchors
-	r      *core.Report
-	e      *provEngine
-	edges  map[s5Obl][]s5Edge
-	escMem map[ssa.Value]int8
-	escWhy map[ssa.Value]string
+	escLocals map[ssa.Value]bool
+	p         *core.Program
+	a         *spec.Anchors
+	r         *core.Report
+	e         *provEngine
+	edges     map[s5Obl][]s5Edge
+	escMem    map[ssa.Value]int8
+	escWhy    map[ssa.Value]string
 }
 
 // S5Retention checks that no slice handed in by a caller is retained and that no internal slice is handed out.
@@ -89,6 +90,9 @@ func S5Retention(p *core.Program, a *spec.Anchors, r *core.Report) {
 					}
 					if c.transientVarargs(x.Addr) {
 						continue
+					}
+					if c.confinedToActivation(x.Addr) {
+						continue // a field of a helper object that is created in this call and never leaves it
 					}
 					if ts := c.taintedRoots(x.Val); len(ts) > 0 {
 						sinks = append(sinks, s5Sink{fn, p.Pos(x.Pos()), "store " + s45_clip(s45_renderVal(x.Val, 0), 40) + " into " + s45_clip(s45_renderVal(x.Addr, 0), 50),
@@ -317,7 +321,7 @@ func (c *s5ctx) isTainted(rt pRoot, vt types.Type) bool {
 	if !s45_isSliceOrAny(pt) {
 		return false
 	}
-	if !rt.deep {
+	if !rt.deep && !rt.one {
 		return s45_isSliceType(vt) || s45_isInterfaceType(vt)
 	}
 	return s45_isSliceType(vt) && s45_nestedMatch(pt, vt)
@@ -793,4 +797,100 @@ func (c *s5ctx) cellEscapes(al *ssa.Alloc) (bool, string) {
 		}
 	}
 	return false, ""
+}
+
+// confinedToActivation: every object the address may denote is a local allocation that does not outlive the
+// call that created it: it is not returned, not stored through a parameter or into a package variable, not
+// captured by a closure, and not stored into another local object that does any of these.
+func (c *s5ctx) confinedToActivation(addr ssa.Value) bool {
+	roots := c.e.get(addr)
+	if len(roots) == 0 {
+		return false
+	}
+	esc := c.escapingLocals()
+	for r := range roots {
+		if r.kind != rkLocal || esc[r.obj] {
+			return false
+		}
+		al, ok := r.obj.(*ssa.Alloc)
+		if !ok {
+			return false
+		}
+		if _, isStruct := types.Unalias(al.Type().(*types.Pointer).Elem()).Underlying().(*types.Struct); !isStruct {
+			return false
+		}
+	}
+	return true
+}
+
+// escapingLocals: local allocation sites that may be reachable after the call that created them returned.
+func (c *s5ctx) escapingLocals() map[ssa.Value]bool {
+	if c.escLocals != nil {
+		return c.escLocals
+	}
+	e := c.e
+	esc := map[ssa.Value]bool{}
+	mark := func(s rootSet) {
+		for r := range s {
+			if r.kind == rkLocal {
+				esc[r.obj] = true
+			}
+		}
+	}
+	for _, s := range e.pstore {
+		mark(s)
+	}
+	for _, rs := range e.ret {
+		for _, s := range rs {
+			mark(s)
+		}
+	}
+	for of, s := range e.contents {
+		if g, ok := of.obj.(*ssa.Global); ok && g != nil {
+			mark(s)
+		}
+	}
+	// captured by a closure, sent on a channel, or stored into a package variable directly
+	for _, fn := range e.fns {
+		for _, b := range fn.Blocks {
+			for _, in := range b.Instrs {
+				switch x := in.(type) {
+				case *ssa.MakeClosure:
+					for _, bnd := range x.Bindings {
+						mark(e.get(bnd))
+						held := rootSet{}
+						e.loadOf(e.get(bnd), held)
+						mark(held)
+					}
+				case *ssa.Send:
+					mark(e.get(x.X))
+				case *ssa.Store:
+					if _, isG := x.Addr.(*ssa.Global); isG {
+						mark(e.get(x.Val))
+					}
+				case *ssa.Go:
+					for _, a := range x.Call.Args {
+						mark(e.get(a))
+					}
+				}
+			}
+		}
+	}
+	// transitively: what an escaping local object holds escapes too
+	for changed := true; changed; {
+		changed = false
+		for of, s := range e.contents {
+			if !esc[of.obj] {
+				continue
+			}
+			for r := range s {
+				if r.kind == rkLocal && !esc[r.obj] {
+					esc[r.obj] = true
+					changed = true
+				}
+			}
+		}
+	}
+	c.escLocals = esc
+	return esc
 }
